@@ -49,6 +49,7 @@ def run_check(prop, repo, tier="quick"):
 
 
 def main(props=None, kind="all", repo="/repo"):
+    only_ids = [x for x in os.environ.get("GSV_SELFTEST_IDS", "").split(",") if x]
     props = [p.upper() for p in (props or [])]
     results = []
     ok = True
@@ -62,6 +63,8 @@ def main(props=None, kind="all", repo="/repo"):
                 shutil.copytree(src, os.path.join(evid_backup, d))
         for entry in CATALOGUE:
             if kind != "all" and not entry["kind"].startswith(kind.rstrip("s")):
+                continue
+            if only_ids and entry["id"] not in only_ids:
                 continue
             targets = entry.get("expect", []) if entry["kind"] == "mutant" else entry.get("silent", [])
             if props:
